@@ -14,6 +14,9 @@ Decides (necessary conditions; static, path- and context-sensitive abstract inte
  R-ERA-REBASE  on the later-era path the query is rebased by the boundary (query - boundary) before later-era rates are applied, and an
                absolute result carries the earlier era's total as an added offset with the boundary's field provenance — the same
                provenance sets in absolute_slot_to_relative and relative_slot_to_absolute (inverse pair).
+ R-CAST        no dimensioned quantity is narrowed / sign-changed by an integer `as` cast to a type that cannot hold its width bound by
+               provenance (fields and parameters have the width of their types; widening, same-width, provenance-bounded, range-tested and
+               try_from narrowings are accepted) when the cast value reaches a result or a branch.
  R-CONST       every constant construction of GenesisValues (the well-known networks) makes the epoch a whole number of slots, puts
                the era boundary on an epoch start, and keeps wall-clock time continuous across the boundary.
 Not decided: the numeric round trip and monotonicity themselves, overflow, behaviour for hand-built GenesisValues."""
@@ -370,10 +373,10 @@ def run(tier):
                     "(private helpers inlined per call site) is checked in the unit algebra {slot, s, epoch}; a remainder must be taken modulo a "
                     "quantity of the same unit (per epoch) — necessary for slot-in-epoch < epoch size in slots; a wall-clock result must be "
                     "known_time + slot distance * slot length of ONE era — necessary for time advancing by the era's slot length; era rates are never "
-                    "mixed, the era is chosen on the correct side of the boundary, and both directions of the epoch conversion use the same boundary "
+                    "mixed, no slot/epoch/time quantity is truncated by a narrowing cast, the era is chosen on the correct side of the boundary, and both directions of the epoch conversion use the same boundary "
                     "provenance; the well-known constants make epochs whole numbers of slots, align the boundary with an epoch start and keep time "
                     "continuous. NOT decided: the numeric round trip and strict monotonicity themselves, overflow, hand-built GenesisValues.",
-        rule_text="R-DIM (unit-of-measure abstract interpretation, context-sensitive inlining) + R-ERA-MIX/ANCHOR/GUARD/REBASE (era provenance) + "
+        rule_text="R-DIM (unit-of-measure abstract interpretation, context-sensitive inlining) + R-CAST (width bound by provenance) + R-ERA-MIX/ANCHOR/GUARD/REBASE (era provenance) + "
                   "R-CONST (laws over the constant GenesisValues constructions)",
         trusted_base=["rustc MIR", "spec/time_units.json"])
 
